@@ -3,9 +3,7 @@
   the result lists of the three dependency queries (errors are unchanged).
 -/
 import PtaProofs.Lemmas.RuleBasics
-namespace Pta
-
-
+namespace Pta.Alg
 /-! ### adding an import edge -/
 
 theorem hierChildren_add (g : PGraph Str) (u v n : Str) :
@@ -221,4 +219,4 @@ theorem qOther_add (g : PGraph Str) (u v : Str) (d : Bool) (A' B' : List Filter)
   · exact getOtherTo_add g u v _ _ _ h
   · exact getOtherFrom_add g u v _ _ _ h
 
-end Pta
+end Pta.Alg
